@@ -51,6 +51,13 @@ def hook_sender(R, env, prog, dctx, arm, variant, role_field, rule):
     seen_roles = []
 
     def boolean(t):
+        if t[0] == "call" and t[1] in ("std::result::Result::map_or", "std::option::Option::map_or") and len(t[2]) == 3 and t[2][1] == ("const", "bool", False) and t[2][2][0] == "closure":
+            # derive(..).map_or(false, |expected| info.sender == expected)
+            r_ = closure_result(prog, t[2][2], params={2: ("payload", t[2][0], "Ok/Some")})
+            return boolean(r_) if r_ is not None else None
+        if t[0] == "call" and t[1] in ("std::result::Result::is_ok_and", "std::option::Option::is_some_and") and len(t[2]) == 2 and t[2][1][0] == "closure":
+            r_ = closure_result(prog, t[2][1], params={2: ("payload", t[2][0], "Ok/Some")})
+            return boolean(r_) if r_ is not None else None
         if t[0] != "call" or t[1] not in EQ:
             return None
         a, b = t[2][0], t[2][1]
@@ -358,9 +365,17 @@ def field_change_sites(prog, env, crate, ns, fields, sites=None):
 # --------------------------------------------------------------------------- money terms
 
 
+# combinators whose Ok / Some payload IS the payload of their receiver: `x.map_err(e)?` is `x?` as a value
+PAYLOAD_PRESERVING = ("std::result::Result::map_err", "std::option::Option::ok_or", "std::option::Option::ok_or_else", "std::result::Result::ok", "std::result::Result::inspect_err", "std::result::Result::or_else")
+
+
 def unwrap_payload(t):
-    while t[0] in ("payload", "trybranch"):
-        t = t[1]
+    """the Option / Result valued term whose payload t is (looking through `?` and the combinators that keep
+    the payload)"""
+    inside = False
+    while t[0] in ("payload", "trybranch") or (inside and t[0] == "call" and t[1] in PAYLOAD_PRESERVING and t[2]):
+        inside = inside or t[0] == "payload"
+        t = t[1] if t[0] in ("payload", "trybranch") else t[2][0]
     return t
 
 
@@ -721,6 +736,12 @@ def is_reward(prog, t, _again=True):
     local helper (`attached_ibc_token_amount(&config, &info.funds)?`)"""
     if t[0] == "field" and t[2] == "amount" and funds_coin(prog, t[1]):
         return True
+    if t[0] == "payload":
+        # helper(..).ok_or(NoFunds)? / .map(|c| c.amount): the payload behind the combinators
+        from engine.analysis import ok_payload as _okp
+        t2 = _okp(t[1])
+        if t2 != t and t2[0] != "phi" and is_reward(prog, t2, _again):
+            return True
     if _again and t[0] == "payload":
         c = unwrap_payload(t)
         if c[0] == "call" and _body_of_call(prog, c) is not None:
